@@ -156,6 +156,10 @@ pub trait Iterator: Sized {
     fn collect<B: FromIter<Self::Item>>(self) -> (r: B)
         ensures r.collected() == self.items();
 
+    // ::core::iter::Iterator::chain
+    fn chain<U: IntoIter<Item = Self::Item>>(self, other: U) -> (r: Chain<Self::Item>)
+        ensures r.citems() == self.items() + other.into_items();
+
     // ::core::iter::Iterator::any
     fn any<P: Fn(Self::Item) -> bool>(&mut self, predicate: P) -> (r: bool)
         requires forall|t: Self::Item| #[trigger] predicate.requires((t,)),
@@ -182,6 +186,8 @@ macro_rules! assumed_iterator {
             fn flat_map<U: IntoIter, F: Fn(Self::Item) -> U>(self, f: F) -> (r: FlatMap<U::Item>) { unimplemented!() }
             #[verifier::external_body]
             fn collect<B: FromIter<Self::Item>>(self) -> (r: B) { unimplemented!() }
+            #[verifier::external_body]
+            fn chain<U: IntoIter<Item = Self::Item>>(self, other: U) -> (r: Chain<Self::Item>) { unimplemented!() }
             #[verifier::external_body]
             fn any<P: Fn(Self::Item) -> bool>(&mut self, predicate: P) -> (r: bool) { unimplemented!() }
         }
@@ -211,8 +217,19 @@ impl<T, F> Map<T, F> { pub uninterp spec fn mitems(&self) -> Seq<T>; }
 pub struct FlatMap<T> { _p: ::core::marker::PhantomData<T> }
 impl<T> FlatMap<T> { pub uninterp spec fn fmitems(&self) -> Seq<T>; }
 
+#[verifier::external_body]
+#[verifier::reject_recursive_types(T)]
+pub struct Chain<T> { _p: ::core::marker::PhantomData<T> }
+impl<T> Chain<T> { pub uninterp spec fn citems(&self) -> Seq<T>; }
+
+#[verifier::external_body]
+#[verifier::reject_recursive_types(T)]
+pub struct Empty<T> { _p: ::core::marker::PhantomData<T> }
+
 } // verus!
 
+assumed_iterator!([T] Chain<T>, T, |s| s.citems());
+assumed_iterator!([T] Empty<T>, T, |s| Seq::<T>::empty());
 assumed_iterator!(['a, T] Iter<'a, T>, &'a T, |s| refs(s.view()));
 assumed_iterator!([T, P0] Filter<T, P0>, T, |s| s.fitems());
 assumed_iterator!([T, F0] Map<T, F0>, T, |s| s.mitems());
@@ -285,8 +302,21 @@ impl<'a, T> Iter<'a, T> {
     { unimplemented!() }
 }
 
+// an iterator of token streams under quote's `#(#v)*`
+impl<F> RepToTokens for Map<TokenStream, F> {
+    open spec fn rep_toks(&self) -> Seq<Seq<Tok>> { toks_of(self.mitems()) }
+}
+
 // Vec<TokenStream> under quote's `#(#v)*`
 pub open spec fn toks_of(s: Seq<TokenStream>) -> Seq<Seq<Tok>> { s.map_values(|t: TokenStream| t@) }
+
+impl TokenStream {
+    // FromIterator<TokenStream> for TokenStream (ASSUMED): concatenation of the streams
+    #[verifier::external_body]
+    pub fn from_iter<I: IntoIter<Item = TokenStream>>(iter: I) -> (r: TokenStream)
+        ensures r@ == flat(toks_of(iter.into_items())),
+    { unimplemented!() }
+}
 
 impl RepToTokens for Vec<TokenStream> {
     open spec fn rep_toks(&self) -> Seq<Seq<Tok>> { toks_of(self@) }
@@ -409,8 +439,53 @@ pub mod flat_lemmas {
         }
     }
 
-    pub broadcast group group_seq { lemma_sfilter_satisfies, lemma_add_empty_left, lemma_add_empty_right, lemma_sflat_singleton, lemma_sflat_empty, lemma_map_values_singleton, lemma_map_values_empty }
+    pub broadcast proof fn lemma_sfilter_member<A>(s: Seq<A>, q: spec_fn(A) -> bool, i: int)
+        requires 0 <= i < sfilter(s, q).len(),
+        ensures exists|j: int| 0 <= j < s.len() && s[j] == #[trigger] sfilter(s, q)[i],
+        decreases s.len(),
+    {
+        if s.len() > 0 {
+            let rest = sfilter(s.drop_first(), q);
+            if q(s[0]) {
+                assert(sfilter(s, q) == seq![s[0]] + rest);
+                if i > 0 {
+                    assert(sfilter(s, q)[i] == rest[i - 1]);
+                    lemma_sfilter_member(s.drop_first(), q, i - 1);
+                    let j = choose|j: int| 0 <= j < s.drop_first().len() && s.drop_first()[j] == rest[i - 1];
+                    assert(s[j + 1] == sfilter(s, q)[i]);
+                } else {
+                    assert(s[0] == sfilter(s, q)[0]);
+                }
+            } else {
+                lemma_sfilter_member(s.drop_first(), q, i);
+                let j = choose|j: int| 0 <= j < s.drop_first().len() && s.drop_first()[j] == rest[i];
+                assert(s[j + 1] == sfilter(s, q)[i]);
+            }
+        }
+    }
+
+    pub broadcast group group_seq { lemma_sfilter_satisfies, lemma_sfilter_member, lemma_add_empty_left, lemma_add_empty_right, lemma_sflat_singleton, lemma_sflat_empty, lemma_map_values_singleton, lemma_map_values_empty }
 
     pub broadcast group group_flat { lemma_toks_of_pointwise, lemma_toks_of_concat, lemma_toks_of_push, lemma_flat_concat, lemma_flat_push, lemma_flat_singleton, lemma_flat_empty, lemma_toks_of_empty }
+    }
+}
+
+// `std::iter::empty()` as written in the real code resolves here (the model's iterators, not core::iter)
+pub mod std {
+    pub mod iter {
+        use super::super::*;
+        verus! {
+        #[verifier::external_body]
+        pub fn empty<T>() -> (r: Empty<T>) { unimplemented!() }
+        }
+    }
+}
+
+// MODELLING CHOICE: a TokenStream value is its token sequence (specs never observe anything else of it)
+pub mod ts_axioms {
+    use super::*;
+    verus! {
+    pub broadcast axiom fn axiom_token_stream_is_its_tokens(a: TokenStream, b: TokenStream)
+        ensures (#[trigger] a@ == #[trigger] b@) ==> a == b;
     }
 }
